@@ -23,6 +23,10 @@ func allKinds(mode, um int, ro bool, family int) *GetOpt {
 	if ro {
 		opt.SetRequireOrder()
 	}
+	if family == 0 {
+		// suggested values that themselves end in '='
+		opt.String("z", "", opt.SuggestedValues("name=", "kind=", "x"))
+	}
 	if family != 2 {
 		opt.Bool("b", false)
 		opt.Increment("i", 0)
